@@ -436,8 +436,8 @@ def main(ctx):
     ctx.lattice("euler-arrays", aunits, one_euler, expand=expand_earr,
                 bounds=dict(window=3, forms=["ndarray", "list"]))
 
-    # pairs: quick uses coarser caps (every second distance), thorough all points
-    pdists = ctx.pick(DISTS[0::2], DISTS)
+    # pairs: every unordered pair of the points of a conversion
+    pdists = DISTS
     punits = []
     for b1950 in (False, True):
         for sel in (1, 2, 3, 4, 5, 6):
@@ -772,7 +772,7 @@ def main(ctx):
                             stomp=[False, True], units=["deg"]))
 
     # ------------------------------------------------------------ rotate
-    ANG = [0.0, 10.0, -10.0, 90.0, 123.0, 180.0, 270.0, 360.0]
+    ANG = [0.0, 10.0, -10.0, 90.0, 123.0, 180.0, 270.0, 360.0] + ctx.pick([], [33.3, -round(gen[1][0] / 2, 1)])
     RDISTS = [1e-9, 1e-6, 1e-3, 1.0]
 
     def rot_matrix(phi, theta, psi):
@@ -1078,7 +1078,7 @@ def main(ctx):
         key = fingerprint(b1950, frame0, frame, [np.asarray(a) for a in cur], pts)
         return key, MENU[frame]
 
-    clen = ctx.pick(3, 4)
+    clen = ctx.pick(4, 6)
     roots = []
     cb = ctx.pick(BEARINGS4[:2], BEARINGS4)
     for b1950 in (False, True):
